@@ -595,7 +595,7 @@ package eval
 //@   ensures [C02] firstA: (err == nil && captured) ==> scanA(policiesConns, pe, len(pe.sortedAdminNetpols), src, dst, isIngress)
 //@   ensures [C02] firstD: (err == nil && captured) ==> scanD(policiesConns, pe, len(pe.sortedAdminNetpols), src, dst, isIngress)
 //@   ensures [C02] firstP: (err == nil && captured) ==> scanP(policiesConns, pe, len(pe.sortedAdminNetpols), src, dst, isIngress)
-//@   ensures [C02] wf: err == nil ==> (wfPC(policiesConns) && disjPC(policiesConns)
+//@   ensures [C02] wf: err == nil ==> (wfPC(policiesConns) && disjPC(policiesConns) && fresh(policiesConns)
 //@         && freshSep(policiesConns.AllowedConns) && freshSep(policiesConns.DeniedConns) && freshSep(policiesConns.PassConns))
 //@   ensures [C02] kept: allKept() && pcFieldsKept()
 //@   ensures [C02] empty: (err == nil && !captured) ==> (forall q corev1.Protocol, n int :: {iset(policiesConns.AllowedConns.AllowedProtocols[q].Ports)[n]} {iset(policiesConns.DeniedConns.AllowedProtocols[q].Ports)[n]} {iset(policiesConns.PassConns.AllowedProtocols[q].Ports)[n]}
@@ -610,7 +610,7 @@ package eval
 //@   hint loop1.preserve.covered: idx, ihcov, singlepts, call7.def, call8.allowed, call8.denied, call8.passed
 //@   before call 7 cut:
 //@     assert idx: 0 <= rangeindex && rangeindex < len(pe.sortedAdminNetpols) && anp == pe.sortedAdminNetpols[rangeindex] && pe != nil
-//@     assert wf1: wfPC(policiesConns)
+//@     assert wf1: wfPC(policiesConns) && fresh(policiesConns)
 //@     assert wf2: disjPC(policiesConns)
 //@     assert wf3: anpsReady(pe)
 //@     assert wf4: allKept() && pcFieldsKept()
@@ -636,7 +636,7 @@ package eval
 //@         (0 <= a && a < len(pe.sortedAdminNetpols) && !pts(policiesConns.AllowedConns, q, n) && !pts(policiesConns.DeniedConns, q, n) && !pts(policiesConns.PassConns, q, n))
 //@         ==> !anpAny(pe.sortedAdminNetpols[a], src, dst, isIngress, q, n)
 //@   loop 1 cut:
-//@     invariant wf: wfPC(policiesConns) && disjPC(policiesConns) && anpsReady(pe) && allKept() && pcFieldsKept()
+//@     invariant wf: wfPC(policiesConns) && fresh(policiesConns) && disjPC(policiesConns) && anpsReady(pe) && allKept() && pcFieldsKept()
 //@         && freshSep(policiesConns.AllowedConns) && freshSep(policiesConns.DeniedConns) && freshSep(policiesConns.PassConns)
 //@     invariant firstA: scanA(policiesConns, pe, rangeindex + 1, src, dst, isIngress)
 //@     invariant firstD: scanD(policiesConns, pe, rangeindex + 1, src, dst, isIngress)
@@ -671,12 +671,29 @@ package eval
 //@ fun npAllows(pe *PolicyEngine, src k8s.Peer, dst k8s.Peer, isIngress bool, q string, n int) bool =
 //@     exists name string :: governing(pe, peerPod(selPeer(src, dst, isIngress)), isIngress, name)
 //@              && policyPts(pe.netpolsMap[peerPod(selPeer(src, dst, isIngress)).Namespace][name], src, dst, isIngress, q, n)
+//@ fun xgressAllowed(pe *PolicyEngine, src k8s.Peer, dst k8s.Peer, isIngress bool, q string, n int) bool =
+//@     isPP(q, n) && (anpVerdict(pe, src, dst, isIngress, "Allow", q, n)
+//@              || (!anpVerdict(pe, src, dst, isIngress, "Deny", q, n)
+//@                  && (if npGoverned(pe, src, dst, isIngress) then npAllows(pe, src, dst, isIngress, q, n) else !banpDenies(pe, src, dst, isIngress, q, n))))
 //@ func (*PolicyEngine).allAllowedXgressConnections
+//@   ensures [C02,C01] kept: allKept()
+//@   ensures [C02,C01] pcframe: pcFieldsKept()
+//@   ensures [C02,C01] freshres: err == nil ==> freshSep(allowedConns)
 //@   hide anpSelects, anpIngAt, anpEgAt, banpSelects, banpIngAt, banpEgAt, peerMatch, portMatch, governs, ingressPolicyPts, egressPolicyPts
 //@   requires pe != nil && !pe.exposureAnalysisFlag && anpsReady(pe) && netpolsOK(pe) && banpReady(pe)
 //@   requires realPeer(src) && realPeer(dst) && realDst(dst) && dyntype(dst, *k8s.PodPeer) && dyntype(src, *k8s.PodPeer)
 //@   modifies *
 //@   ensures [C02] precedence: err == nil ==> (wfCS(allowedConns) && (forall q corev1.Protocol, n int :: {iset(allowedConns.AllowedProtocols[q].Ports)[n]}
-//@         pts(allowedConns, q, n) == (isPP(q, n) && (anpVerdict(pe, src, dst, isIngress, "Allow", q, n)
-//@              || (!anpVerdict(pe, src, dst, isIngress, "Deny", q, n)
-//@                  && (if npGoverned(pe, src, dst, isIngress) then npAllows(pe, src, dst, isIngress, q, n) else !banpDenies(pe, src, dst, isIngress, q, n)))))))
+//@         pts(allowedConns, q, n) == xgressAllowed(pe, src, dst, isIngress, q, n)))
+
+// both directions: a connection is allowed iff the egress side of src and the ingress side of dst both allow it
+//@ fun samePod(src k8s.Peer, dst k8s.Peer) bool = dyntype(src, *k8s.PodPeer) && dyntype(dst, *k8s.PodPeer)
+//@     && peerPod(src).Name == peerPod(dst).Name && peerPod(src).Namespace == peerPod(dst).Namespace
+//@ func (*PolicyEngine).allAllowedConnectionsBetweenPeers
+//@   hide xgressAllowed
+//@   requires pe != nil && !pe.exposureAnalysisFlag && anpsReady(pe) && netpolsOK(pe) && banpReady(pe)
+//@   requires realPeer(srcPeer) && realPeer(dstPeer) && realDst(dstPeer) && dyntype(dstPeer, *k8s.PodPeer) && dyntype(srcPeer, *k8s.PodPeer)
+//@   modifies *
+//@   ensures [C02,C01] both: res1 == nil ==> (wfCS(res0) && (forall q corev1.Protocol, n int :: {iset(res0.AllowedProtocols[q].Ports)[n]}
+//@         pts(res0, q, n) == (isPP(q, n) && (samePod(srcPeer, dstPeer)
+//@              || (xgressAllowed(pe, srcPeer, dstPeer, false, q, n) && xgressAllowed(pe, srcPeer, dstPeer, true, q, n))))))
